@@ -214,7 +214,12 @@ Definition gs_enter_subshell (c : N) (opt : esopt) (e : entry) (st : sigst) : ou
   let parent1 := if cmd then Some (e_cur e) else e_parent e in
   let cur2 :=
     match opt with
-    | EsIgnore => mkT AIgnore (t_origin cur1) (t_pending cur1)
+    | EsIgnore =>
+        (* ignored by the shell, not since its startup: the subshell may still
+           set a trap for it (origin Subshell), unless it was ignored already *)
+        mkT AIgnore
+            (if action_eqb (t_action cur1) AIgnore then t_origin cur1 else Subshell)
+            (t_pending cur1)
     | _ => cur1
     end in
   let new_setting := disp_of (t_action cur2) in
